@@ -4,7 +4,7 @@
    numpy array  -> list Q           axis[k] -> nthq xs k         Coordinates (mutable cell) -> field g_o
    `middle`     -> a parameter `mid : Q -> Q -> Q` (CTMCGrid.middle is `amid`, the arithmetic mean;
                    CTMCGridProbabilityStep.middle is a root-found point: covered by the hypotheses on mid) *)
-From Coq Require Import ZArith QArith Qabs List Bool Lia.
+From Coq Require Import ZArith QArith Qabs Qround List Bool Lia.
 From RV Require Import Base.QB.
 Import ListNotations.
 Open Scope Q_scope.
@@ -50,6 +50,20 @@ Definition fixed_right (h : Q) (m : nat) : list Q := map (fun k => inject_Z (Z.o
 Definition fixed_left (h : Q) (m : nat) : list Q := map Qopp (rev (fixed_right h m)).
 Definition fixed_axis (h : Q) (nb : nat) : list Q * nat :=
   assemble (fixed_left h (nb / 2)) (fixed_right h (nb / 2)).
+
+(* CTMCUniformGrid.__init__ (spatial.py:148-164), one axis; l, r = truncation bounds returned by the root search.
+   np.linspace is modelled as its mathematical sequence start + i*(stop-start)/(num-1) (num = 1: [start]);
+   int(x) of a non-negative float as the floor.  The repaired constructor (fix-grid) raises ValueError unless
+   int(|l|/h) >= 2 and int(r/h) >= 1: None. *)
+Definition linspace (a b : Q) (n : nat) : list Q :=
+  match n with
+  | O => []
+  | S O => [a]
+  | S (S m) => map (fun i => a + inject_Z (Z.of_nat i) * ((b - a) / inject_Z (Z.of_nat (S m)))) (seq 0 n)
+  end.
+Definition uniform_axis (l h r : Q) : option (list Q * nat) :=
+  let nl := Z.to_nat (Qfloor (Qabs l / h)) in let nr := Z.to_nat (Qfloor (r / h)) in
+  if (nl <? 2)%nat || (nr <? 1)%nat then None else Some (assemble (linspace l (- h) nl) (linspace h r nr)).
 
 (* CTMCCredit (spatial.py:338-357), one axis; l, r are the truncation bounds returned by the root search.
    The repaired constructor (fix-grid: "CTMCCredit rejects thresholds that make an axis non-monotone")
